@@ -114,11 +114,24 @@ class Xact:
         return [p for p in self.posts if p.amt is None and p.must_balance()]
 
 
-def render_journal(xacts, bucket=None, prelude=''):
+BUCKET_STYLES = ['A %s\n\n', 'bucket %s\n\n', 'account %s\n    default\n\n']
+
+
+def bucket_directive(bucket, style=0):
+    return BUCKET_STYLES[style] % bucket if bucket else ''
+
+
+def render_journal(xacts, bucket=None, prelude='', root=None, bucket_style=0):
+    """root: the whole journal (the bucket directive included) inside `apply account ROOT` ... `end apply account`:
+    every account, the bucket's too, then lives below ROOT"""
     out = prelude
-    if bucket:
-        out += 'A %s\n\n' % bucket
-    return out + '\n'.join(x.text(i) for i, x in enumerate(xacts))
+    if root:
+        out += 'apply account %s\n\n' % root
+    out += bucket_directive(bucket, bucket_style)
+    out += '\n'.join(x.text(i) for i, x in enumerate(xacts))
+    if root:
+        out += '\nend apply account\n'
+    return out
 
 
 def journal_sx(jid, xacts, bucket=None):
@@ -158,18 +171,25 @@ def show_canon(c):
     return '%s:%s/%s:%d:%d' % (c[0] or '', c[1].numerator, c[1].denominator, c[2], c[3])
 
 
-def parse_reg(out):
-    """-> {xact index: [row strings in the canonical form the driver prints]}"""
+def parse_reg(out, root=None):
+    """-> {xact index: [row strings in the canonical form the driver prints]}; with `root` the accounts are taken
+    relative to it and a row whose account is not below it is marked (row['outside'])"""
     rows = {}
     for line in out.decode('utf-8', 'replace').split('\n'):
         f = line.split('|')
         if len(f) != 8 or not re.fullmatch(r'x\d+', f[0]):
             continue
+        outside = False
+        if root:
+            if f[1].startswith(root + ':'):
+                f[1] = f[1][len(root) + 1:]
+            else:
+                outside = True
         i = int(f[0][1:])
         amt, cost = canon_amount(f[6]), canon_amount(f[7])
         rows.setdefault(i, []).append(dict(
             acct=f[1], virtual=f[2] == 'true', calculated=f[3] == 'true', cost_calculated=f[4] == 'true',
-            generated=f[5] != 'true', amt=amt, cost=cost,
+            generated=f[5] != 'true', amt=amt, cost=cost, outside=outside,
             text='%s,%s,%s,%s,%d%d%d' % (f[1], 'v' if f[2] == 'true' else 'r', show_canon(amt), show_canon(cost),
                                         f[3] == 'true', f[5] != 'true', f[4] == 'true')))
     return rows
@@ -445,19 +465,20 @@ def impl_summary(i, rows, rejected, errs):
     return 'IGNORED'
 
 
-def compare_journal(ctx, res, prop, j, xs, bucket=None):
+def compare_journal(ctx, res, prop, j, xs, bucket=None, root=None, bucket_style=0):
     """run one journal through ledger and through the extracted finalize model; record disagreements.
     -> (rows per accepted transaction, rejected set, error classes, exit status, journal text)"""
     jid = 'j%d' % j
-    text = render_journal(xs, bucket)
+    text = render_journal(xs, bucket, root=root, bucket_style=bucket_style)
     st, out, err, path = run_ledger_journal(ctx, '%s_%d.dat' % (prop, j % 6), text)
     errs = parse_errors(err, path, text)
     rejected = set(k for k in errs if isinstance(k, int))
-    rows = parse_reg(out)
+    rows = parse_reg(out, root)
     if rejected:
         st2, out2, err2, _ = run_ledger_journal(ctx, '%s_clean_%d.dat' % (prop, j % 6),
-                                                ('A %s\n\n' % bucket if bucket else '') + clean_journal(xs, rejected))
-        rows = parse_reg(out2)
+                                                ('apply account %s\n\n' % root if root else '') + bucket_directive(bucket, bucket_style) +
+                                                clean_journal(xs, rejected) + ('\nend apply account\n' if root else ''))
+        rows = parse_reg(out2, root)
         if st2 != 0:
             res.notes.append('clean journal of %s still has errors: %s' % (jid, err2.decode()[-200:]))
     model = model_lines_to_map(lib.run_model('C01', [journal_sx(jid, xs, bucket)]))
@@ -474,6 +495,12 @@ def compare_journal(ctx, res, prop, j, xs, bucket=None):
             res.disagreements.append(dict(name=prop + '/finalize', case=x.text(i), journal=path, impl=impl, model=mod))
     if errs.get('unlocated'):
         res.notes.append('unlocated errors in %s: %s' % (jid, errs['unlocated'][:3]))
+    if root:
+        for i, rs in rows.items():
+            for r in rs:
+                if r.get('outside'):
+                    res.violations.append(dict(key='account-outside-applied-root', desc='inside `apply account %s` a posting went to %s' % (root, r['acct']),
+                                               case=dict(journal=text, xact=i), observed=r['acct'], required='an account below ' + root))
     return rows, rejected, errs, st, text
 
 
